@@ -2,7 +2,9 @@
 import re
 
 from . import analysis as A
+from . import deep as D
 from . import roles
+from . import spans as SP
 from .c04 import _reaches_block
 from .mir import Site, Unverifiable, callee_is, callee_path, const_int, const_str, op_fn, op_local, op_place, place_fields, place_str
 
@@ -35,83 +37,128 @@ def instrument_sites(F, bodies):
     return out
 
 
+def _rname(r):
+    return F_short(r).rsplit("::", 1)[-1]
+
+
+def F_short(r):
+    return r.F.root_fn(r.body).short
+
+
+def _user_runs(r, row):
+    """(index, coroutine name) of every point of the path where a user future (a coroutine nested in the routine) is run:
+    its await, or the panic caught out of it."""
+    out = []
+    for i, e in enumerate(row.p.effects):
+        if e[0] == "await" and e[1][0] == "coroutine" and e[1][1] in r.user:
+            out.append((i, e[1][1]))
+        elif e[0] == "caught-panic":
+            for x in D.subterms(e[1]):
+                if x[0] == "coroutine" and x[1] in r.user:
+                    out.append((i, x[1]))
+    return out
+
+
 def r1(F, R):
-    rs, root, tree = roles.attempt_tree(F)
-    ins = instrument_sites(F, tree)
+    """On the deep path tables of the attempt's routines (spans.py): every run of a user future is inside
+    `Instrument::instrument(fut, <kind>_span(..))`."""
     kinds = {}
-    for b, s, t in ins:
-        ssl = A.slice_back(b, [t["args"][1]], stop_calls=[r"Future::poll$"])
-        span_calls = [(cs, ct) for cs, ct in ssl.calls if re.search(r"(scenario_span|step_span|hook_span)$", callee_path(ct) or "")]
-        kind = (callee_path(span_calls[0][1]).rsplit("::", 1)[-1] if len(span_calls) == 1 else "?")
-        hk = {rv["variant"] for _, rv in ssl.aggs if rv.get("adt") == "event::HookType"}
-        name = kind + ("/" + "+".join(sorted(hk)) if hk else "")
-        kinds[name] = kinds.get(name, 0) + 1
-        # the instrumented future is awaited
-        aw = []
-        for a in A.awaits(b):
-            if a.src_op is None:
+    for r in SP.table(F):
+        name = _rname(r)
+        ks = set()
+        n_paths = 0
+        for row in r.rows:
+            runs = _user_runs(r, row)
+            if not runs and not row.instr:
                 continue
-            asl = A.slice_back(b, [a.src_op], stop_calls=[r"Future::poll$"])
-            if s in asl.sites and not asl.has_call(r"wait_for_span_close$"):
-                aw.append(a)
-        R.check(len(span_calls) == 1 and len(aw) == 1, f"instrumented-and-awaited/{name}", s, "fut.instrument(span) is what gets awaited",
-                f"a user future is instrumented with {len(span_calls)} spans / awaited {len(aw)} times")
-        if kind == "scenario_span" and span_calls:
-            idsl = A.slice_back(b, [span_calls[0][1]["args"][0]], stop_calls=[r"Future::poll$"])
-            id_ups = {e for e in idsl.upvars}
-            fn = F.parent_body(b)
-            id_params = [i for i, ty in enumerate(fn.locals[1:fn.arg_count + 1]) if ty == "runner::basic::ScenarioId"]
-            R.check(len(id_params) == 1 and id_ups == {id_params[0]}, "attempt-span-carries-own-id", span_calls[0][0], "scenario_span() of the attempt's own ScenarioId",
+            n_paths += 1
+            for i, fut, span in row.instr:
+                ks.add(r.span_kind(span))
+            for i, co in runs:
+                cov = [ins for ins in row.instr if ins[0] < i and r.covered(ins[1], co)]
+                R.check(len(cov) == 1, f"instrumented-and-awaited/{name}", r.body, "every run of a user future is under fut.instrument(span)",
+                        f"a user future ({co.rsplit('::', 2)[-1]}) is polled outside any tracing span ({len(cov)} covering Instrument::instrument): its logs are not attributed")
+        if n_paths == 0:
+            continue
+        R.check(len(ks) == 1 and None not in ks, f"one-span-kind/{name}", r.body, f"{ks}", f"{name} instruments with spans {ks} (unknown = not a scenario_span/step_span/hook_span call)")
+        for k in ks:
+            if k is not None:
+                nm = k[0] + ("/" + k[1] if k[1] else "")
+                kinds[nm] = kinds.get(nm, 0) + 1
+        if ks == {("scenario_span", None)}:
+            ok = True
+            upv = r.upv
+            ids = [i for i, ty in upv.items() if ty == "runner::basic::ScenarioId"]
+            for row in r.rows:
+                for i, fut, span in row.instr:
+                    a0 = SP._strip(span[2][0]) if span[2] else None
+                    ok = ok and a0 is not None and a0[0] == "field" and a0[1] in (("arg", 1), ("deref", ("arg", 1))) and len(ids) == 1 and a0[2] == ids[0]
+            R.check(ok, "attempt-span-carries-own-id", r.body, "scenario_span() of the attempt's own ScenarioId",
                     "the attempt's span is created for a different ScenarioId than the one the attempt was dispatched with (logs go to another scenario)")
     want = {"scenario_span": 1, "step_span": 1, "hook_span/Before": 1, "hook_span/After": 1}
     R.check(kinds == want, "four-instrumented-futures", None, f"{kinds}", f"instrumented user futures: {kinds}; expected {want}")
-    # every user-callback call site lies under one of the instrumented futures (step fn / hooks / World::new in step & before hook)
     R.floor(5)
 
 
+def _handshake(r, row, ins):
+    """For the future instrumented at `ins` on this path: (required, wait index, awaited index, own-span?, end of the user run)."""
+    i0, fut, span = ins
+    runs = [i for i, co in _user_runs(r, row) if i > i0 and r.covered(fut, co)]
+    end = max(runs) if runs else i0
+    absent = False
+    for a, out in row.p.conds:
+        if a[0] != "discr" or out != "None":
+            continue
+        x = SP._strip(a[1])
+        if x[0] == "call" and re.search(r"Span::id$", x[1]):
+            absent = True
+        elif x[0] == "field" and x[1] in (("arg", 1), ("deref", ("arg", 1))) and "SpanCloseWaiter" in r.upv.get(x[2], ""):
+            absent = True
+    wait = [(j, e) for j, e in row.waits if j > end]
+    own, awaited = None, None
+    if wait:
+        j, e = wait[0]
+        idt = SP._strip(e[2][1]) if len(e[2]) > 1 else None
+        own = False
+        if idt is not None and idt[0] == "field" and idt[1][0] == "as" and idt[1][2] == "Some":
+            c = SP._strip(idt[1][1])
+            own = c[0] == "call" and re.search(r"Span::id$", c[1]) is not None and bool(c[2]) and SP._strip(c[2][0]) == span
+        wt = ("call", e[1], e[2], e[4])
+        aw = [k for k, f in row.awaits if k > j and f == wt]
+        awaited = aw[0] if aw else None
+    return (not absent), (wait[0][0] if wait else None), awaited, own, end
+
+
 def r2(F, R):
-    rs, root, tree = roles.attempt_tree(F)
-    emit_fns = roles.emitters(F, tree)
+    """Hand-shake on the path tables: on every path on which the waiter and the span's id are both present, the routine
+    awaits wait_for_span_close(id of the instrumenting span) after the user future and before any later event."""
     n = 0
-    for b in tree:
-        zips = [(s, t) for s, t in b.calls(lambda t: callee_is(t, r"Option::<.*>::zip$"))]
-        waits = [(s, t) for s, t in b.calls(lambda t: callee_is(t, r"SpanCloseWaiter::wait_for_span_close$"))]
-        if not waits:
+    for r in SP.table(F):
+        name = _rname(r)
+        rows = [row for row in r.rows if row.instr]
+        if not rows:
             continue
         n += 1
-        name = F.root_fn(b).short.rsplit("::", 1)[-1]
-        R.check(len(zips) == 1 and len(waits) == 1, f"{name}/handshake-sites", b, "", f"zip x{len(zips)}, wait_for_span_close x{len(waits)}")
-        if len(zips) != 1 or len(waits) != 1:
-            continue
-        s_z, t_z = zips[0]
-        s_w, t_w = waits[0]
-        # the id waited for is the id of the span used for instrumenting
-        ins = instrument_sites(F, [b])
-        ok_id = False
-        if len(ins) == 1:
-            span_l = A.canon_place(b, op_place(ins[0][2]["args"][1]))["l"] if op_place(ins[0][2]["args"][1]) else None
-            idsl = A.slice_back(b, [t_w["args"][1]], stop_calls=[r"Future::poll$"])
-            ids = [(cs, ct) for cs, ct in idsl.calls if callee_is(ct, r"tracing::Span::id$", r"Span::id$")]
-            if len(ids) == 1 and span_l is not None:
-                rl = op_local(ids[0][1]["args"][0])
-                ok_id = rl is not None and A.canon_place(b, {"l": rl, "p": ["*"]})["l"] == span_l
-        R.check(ok_id, f"{name}/waits-for-own-span", s_w, "wait_for_span_close(id of the instrumenting span)", "the hand-shake waits for a different span than the one the user future ran in")
-        # result emission only after the wait (on the Some edge)
-        aw = [a for a in A.awaits(b) if a.src_op is not None and s_w in A.slice_back(b, [a.src_op], stop_calls=[r"Future::poll$"]).sites]
-        sw = b.blocks[t_z["t"]]["term"]
-        some_t = None
-        if sw["k"] == "switch":
-            some_t = [tg for v, tg in sw["targets"] if v == 1] or None
-        sends = [(s, t) for s, t in b.calls() if F.callee_body(t) is not None and F.callee_body(t).key in emit_fns and b.site_reaches(s_z, s)]
-        R.check(len(aw) == 1 and some_t is not None, f"{name}/wait-awaited", s_w, "", "wait_for_span_close is not awaited under the Some edge of zip")
-        if len(aw) == 1 and some_t:
-            ready = Site(b, aw[0].ready_bb, "T")
-            late = [s for s, t in sends if _reaches_block(b, some_t[0], s.bb, [ready])]
-            R.check(not late, f"{name}/result-after-span-closed", s_w, f"{len(sends)} result emission(s) only after the span closed",
-                    f"a result event can be emitted before the step's/hook's span has closed (its logs may arrive after the result): {[x.loc for x in late]}")
-            # returns (failure results) too: `return` not reachable on the Some edge without the wait
-            skips = b.return_reachable_from(Site(b, some_t[0], "T"), stop=[ready]) if False else _return_reachable_block(b, some_t[0], ready)
-            R.check(not skips, f"{name}/every-outcome-after-span-closed", s_w, "", "the function can return (failure outcome) before the span has closed")
+        req_rows = 0
+        for row in rows:
+            for ins in row.instr:
+                required, j, k, own, end = _handshake(r, row, ins)
+                if not required:
+                    continue
+                req_rows += 1
+                R.check(j is not None, f"{name}/handshake-sites", r.body, "", "a path with a waiter and a span id has no wait_for_span_close after the user future")
+                if j is None:
+                    continue
+                R.check(own is True, f"{name}/waits-for-own-span", r.body, "wait_for_span_close(id of the instrumenting span)",
+                        "the hand-shake waits for a different span than the one the user future ran in")
+                R.check(k is not None, f"{name}/wait-awaited", r.body, "", "wait_for_span_close is called but its future is not awaited")
+                if k is None:
+                    continue
+                late = [i for i, e in row.sends if end < i < k]
+                R.check(not late, f"{name}/result-after-span-closed", r.body, "result emission(s) only after the span closed",
+                        "a result event can be emitted before the step's/hook's span has closed (its logs may arrive after the result)")
+        R.check(req_rows > 0, f"{name}/every-outcome-after-span-closed", r.body, f"{req_rows} path(s) with waiter and id checked",
+                "no path of the routine has both a waiter and a span id: the hand-shake can never happen")
     R.check(n == 4, "handshake-functions", None, "run_scenario, run_step, before hook, after hook", f"{n} functions perform the span-close hand-shake")
     R.floor(12)
 
@@ -282,44 +329,38 @@ def _agg_local(w, rv):
 def r5(F, R):
     """"... positioned after the Started event of the step or hook that emitted it": a necessary structural condition is
     that the routine running a step / hook sends that step's / hook's Started event BEFORE it starts polling the
-    instrumented user future — otherwise the future's logs (forwarded while it runs and at its span close) precede Started."""
-    rs, root, tree = roles.attempt_tree(F)
-    emit_fns = roles.emitters(F, tree)
+    instrumented user future — otherwise the future's logs (forwarded while it runs and at its span close) precede Started.
+    Decided on the routines' path tables (spans.py)."""
     n = 0
-    for b, s, t in instrument_sites(F, tree):
-        ssl = A.slice_back(b, [t["args"][1]], stop_calls=[r"Future::poll$"])
-        span_calls = [(cs, ct) for cs, ct in ssl.calls if re.search(r"(step_span|hook_span)$", callee_path(ct) or "")]
-        if len(span_calls) != 1:
+    for r in SP.table(F):
+        kinds = {r.span_kind(span) for row in r.rows for _, _, span in row.instr}
+        if len(kinds) != 1 or None in kinds:
             continue
-        kind = callee_path(span_calls[0][1]).rsplit("::", 1)[-1]
-        hk = {rv["variant"] for _, rv in ssl.aggs if rv.get("adt") == "event::HookType"}
-        name = kind + ("/" + "+".join(sorted(hk)) if hk else "")
-        aws = []
-        for a in A.awaits(b):
-            if a.src_op is None:
-                continue
-            asl = A.slice_back(b, [a.src_op], stop_calls=[r"Future::poll$"])
-            if s in asl.sites and not asl.has_call(r"wait_for_span_close$"):
-                aws.append(a)
-        if len(aws) != 1:
+        kind, hk = next(iter(kinds))
+        if kind not in ("step_span", "hook_span"):
             continue
         n += 1
-        want = "event::Step::Started" if kind == "step_span" else "event::Hook::Started"
-        started = []
-        for cs, ct in b.calls():
-            cb = F.callee_body(ct)
-            if cb is None or cb.key not in emit_fns or len(ct["args"]) < 2:
-                continue
-            tags, sl = A.event_tags(F, b, ct["args"][1])
-            hts = {rv["variant"] for _, rv in sl.aggs if rv.get("adt") == "event::HookType"}
-            if want in tags and (kind == "step_span" or hts == hk):
-                started.append(cs)
-            elif kind == "step_span" and any(callee_is(c2, r"ops::FnOnce::call_once$") and re.match(r"^[A-Z]\w*$", (op_fn(c2["func"]) or {}).get("self", "")) for _, c2 in sl.calls):
-                # run_step receives the three event constructors as FnOnce parameters; that the one sent first is
-                # `Step::Started` at every call site is C02.R2's rule — here: an emission precedes the user future
-                started.append(cs)
-        ok = any(b.dominates(cs, aws[0].poll_site) for cs in started)
-        R.check(ok, f"started-before-user-code/{name}", aws[0].poll_site, f"{want.split('::', 1)[1]} is sent before the instrumented future is polled",
+        name = kind + ("/" + hk if hk else "")
+        ok = True
+        for row in r.rows:
+            for i0, fut, span in row.instr:
+                started = False
+                for i, e in row.sends:
+                    if i > i0:
+                        continue
+                    for x in D.subterms(e[2][1] if len(e[2]) > 1 else e[2]):
+                        if kind == "hook_span" and D.is_variant(x, "event::Scenario", "Hook") and len(x[3]) == 2 and \
+                                D.is_variant(x[3][0], "event::HookType", hk) and D.is_variant(x[3][1], "event::Hook", "Started"):
+                            started = True
+                        elif kind == "step_span" and D.is_variant(x, "event::Step", "Started"):
+                            started = True
+                        elif kind == "step_span" and x[0] == "call" and x[1] == "<indirect>" and not D.mentions(x, lambda y: y[0] in ("await", "panic")):
+                            # run_step receives the three event constructors as FnOnce parameters; that the one sent first
+                            # is `Step::Started` at every call site is C02.R2's rule — here: an emission precedes the user future
+                            started = True
+                ok = ok and started
+        want = "Step::Started" if kind == "step_span" else "Hook::Started"
+        R.check(ok, f"started-before-user-code/{name}", r.body, f"{want} is sent before the instrumented future is polled",
                 f"the routine polls the instrumented {name} future without having sent its Started event first: logs emitted by that "
                 f"{'hook' if kind == 'hook_span' else 'step'} are delivered BEFORE its Started event")
     R.check(n == 3, "started-before-user-code/routines", None, "step, before hook, after hook", f"{n} step/hook routines with an instrumented user future")
